@@ -1,7 +1,7 @@
 //! C05: static inventory of the places where the source iterates a HashMap / HashSet
 //! (the model has one explicit iteration-order parameter per such site)
 use quote::ToTokens;
-use std::collections::BTreeSet;
+use std::collections::{BTreeMap, BTreeSet};
 use syn::visit::{self, Visit};
 
 /// the sites the Lean model accounts for (`hintTable`'s `order` parameter)
@@ -17,8 +17,17 @@ struct V<'a> {
     file: &'a str,
     fn_stack: Vec<String>,
     hashed: Vec<BTreeSet<String>>, // per function: identifiers bound to a HashMap / HashSet
-    hashed_fields: BTreeSet<String>,
+    /// every struct of the crate with the names of its fields whose type mentions HashMap / HashSet
+    structs: &'a BTreeMap<String, BTreeSet<String>>,
+    /// the type the surrounding `impl` block is for
+    impl_stack: Vec<String>,
+    /// per function: declared types of parameters and annotated locals
+    var_types: Vec<BTreeMap<String, String>>,
     sites: BTreeSet<String>,
+}
+
+fn idents_of(ty: &str) -> Vec<String> {
+    ty.split(|c: char| !(c.is_alphanumeric() || c == '_')).filter(|s| !s.is_empty()).map(|s| s.to_string()).collect()
 }
 
 impl<'a> V<'a> {
@@ -36,7 +45,29 @@ impl<'a> V<'a> {
             syn::Expr::Paren(p) => self.is_hashed_expr(&p.expr),
             syn::Expr::Field(f) => {
                 if let syn::Member::Named(n) = &f.member {
-                    if self.hashed_fields.contains(&n.to_string()) {
+                    let n = n.to_string();
+                    // the struct the receiver belongs to, where that can be read off the source
+                    let mut base = &*f.base;
+                    while let syn::Expr::Reference(r) = base {
+                        base = &r.expr;
+                    }
+                    let known: Option<Vec<String>> = match base {
+                        syn::Expr::Path(p) => {
+                            let id = p.path.segments.last().map(|s| s.ident.to_string()).unwrap_or_default();
+                            if id == "self" {
+                                self.impl_stack.last().map(|t| vec![t.clone()])
+                            } else {
+                                self.var_types.iter().rev().find_map(|m| m.get(&id)).map(|ty| idents_of(ty).into_iter().filter(|i| self.structs.contains_key(i)).collect::<Vec<_>>()).filter(|v| !v.is_empty())
+                            }
+                        }
+                        _ => None,
+                    };
+                    let hashed = match known {
+                        Some(types) => types.iter().any(|t| self.structs.get(t).map_or(false, |fs| fs.contains(&n))),
+                        // receiver of unknown type: any struct with a hashed field of that name counts
+                        None => self.structs.values().any(|fs| fs.contains(&n)),
+                    };
+                    if hashed {
                         return Some(format!("self.{}", n));
                     }
                 }
@@ -71,15 +102,11 @@ impl<'a, 'ast> Visit<'ast> for V<'a> {
         }
         visit::visit_item_mod(self, m);
     }
-    fn visit_item_struct(&mut self, s: &'ast syn::ItemStruct) {
-        for f in s.fields.iter() {
-            if let Some(id) = &f.ident {
-                if mentions_hash(&f.ty.to_token_stream().to_string()) {
-                    self.hashed_fields.insert(id.to_string());
-                }
-            }
-        }
-        visit::visit_item_struct(self, s);
+    fn visit_item_impl(&mut self, i: &'ast syn::ItemImpl) {
+        let ty = idents_of(&i.self_ty.to_token_stream().to_string()).into_iter().find(|t| self.structs.contains_key(t)).unwrap_or_default();
+        self.impl_stack.push(ty);
+        visit::visit_item_impl(self, i);
+        self.impl_stack.pop();
     }
     fn visit_item_fn(&mut self, f: &'ast syn::ItemFn) {
         self.fn_stack.push(f.sig.ident.to_string());
@@ -94,7 +121,9 @@ impl<'a, 'ast> Visit<'ast> for V<'a> {
             }
         }
         self.hashed.push(set);
+        self.var_types.push(param_types(&f.sig));
         visit::visit_item_fn(self, f);
+        self.var_types.pop();
         self.hashed.pop();
         self.fn_stack.pop();
     }
@@ -111,7 +140,9 @@ impl<'a, 'ast> Visit<'ast> for V<'a> {
             }
         }
         self.hashed.push(set);
+        self.var_types.push(param_types(&f.sig));
         visit::visit_impl_item_fn(self, f);
+        self.var_types.pop();
         self.hashed.pop();
         self.fn_stack.pop();
     }
@@ -129,6 +160,11 @@ impl<'a, 'ast> Visit<'ast> for V<'a> {
             (s.contains("HashMap ::") || s.contains("HashSet ::") || s.contains(":: < HashMap") || s.contains(":: < HashSet") || s.contains("HashMap::") || s.contains("HashSet::"))
                 && !s.contains(". len ()")
         });
+        if let (syn::Pat::Type(t), Some(m)) = (&l.pat, self.var_types.last_mut()) {
+            if let syn::Pat::Ident(i) = &*t.pat {
+                m.insert(i.ident.to_string(), t.ty.to_token_stream().to_string());
+            }
+        }
         if let Some(n) = name {
             if ty_hash || init_hash {
                 if let Some(s) = self.hashed.last_mut() {
@@ -155,6 +191,35 @@ impl<'a, 'ast> Visit<'ast> for V<'a> {
     }
 }
 
+fn param_types(sig: &syn::Signature) -> BTreeMap<String, String> {
+    let mut m = BTreeMap::new();
+    for a in sig.inputs.iter() {
+        if let syn::FnArg::Typed(t) = a {
+            if let syn::Pat::Ident(i) = &*t.pat {
+                m.insert(i.ident.to_string(), t.ty.to_token_stream().to_string());
+            }
+        }
+    }
+    m
+}
+
+/// struct name → fields whose type mentions HashMap / HashSet (every struct is listed, possibly with no such field)
+struct Structs(BTreeMap<String, BTreeSet<String>>);
+
+impl<'ast> Visit<'ast> for Structs {
+    fn visit_item_struct(&mut self, s: &'ast syn::ItemStruct) {
+        let e = self.0.entry(s.ident.to_string()).or_default();
+        for f in s.fields.iter() {
+            if let Some(id) = &f.ident {
+                if mentions_hash(&f.ty.to_token_stream().to_string()) {
+                    e.insert(id.to_string());
+                }
+            }
+        }
+        visit::visit_item_struct(self, s);
+    }
+}
+
 fn rs_files(dir: &std::path::Path, out: &mut Vec<std::path::PathBuf>) {
     if let Ok(rd) = std::fs::read_dir(dir) {
         for e in rd.filter_map(|e| e.ok()) {
@@ -175,6 +240,14 @@ pub fn scan(repo: &str) -> (BTreeSet<String>, Vec<String>) {
     files.sort();
     let mut sites = BTreeSet::new();
     let mut problems = Vec::new();
+    // first pass: the structs of the whole crate
+    let mut structs = Structs(BTreeMap::new());
+    for f in &files {
+        if let Ok(ast) = std::fs::read_to_string(f).map_err(|e| e.to_string()).and_then(|s| syn::parse_file(&s).map_err(|e| e.to_string())) {
+            structs.visit_file(&ast);
+        }
+    }
+    let structs = structs.0;
     for f in files {
         let rel = f.strip_prefix(repo).map(|p| p.to_string_lossy().trim_start_matches('/').to_string()).unwrap_or_default();
         if rel.ends_with("macro_rule.rs") || rel == "src/main.rs" || rel == "src/args.rs" {
@@ -182,7 +255,7 @@ pub fn scan(repo: &str) -> (BTreeSet<String>, Vec<String>) {
         }
         match std::fs::read_to_string(&f).map_err(|e| e.to_string()).and_then(|s| syn::parse_file(&s).map_err(|e| e.to_string())) {
             Ok(ast) => {
-                let mut v = V { file: &rel, fn_stack: vec![], hashed: vec![], hashed_fields: BTreeSet::new(), sites: BTreeSet::new() };
+                let mut v = V { file: &rel, fn_stack: vec![], hashed: vec![], structs: &structs, impl_stack: vec![], var_types: vec![], sites: BTreeSet::new() };
                 v.visit_file(&ast);
                 sites.extend(v.sites);
             }
